@@ -54,6 +54,15 @@ def _gen(ci, dom, plan):
             plan["phase"] = "buf"
             ph = "buf"
         if ph == "buf":
+            while plan.get("script"):
+                kind, o = plan["script"].pop(0)
+                cand = [i for i in w.attached_handles() if w.handles[i].obj == roots[o % len(roots)]]
+                if not cand:
+                    continue
+                hi = draw(st.sampled_from(cand))
+                if kind == "r":
+                    return gen.draw_read(draw, w, hi, dom, refs=False)
+                return gen.draw_mutator(draw, w, hi, dom, p_raise=0)
             if plan["nbuf"] > 0:
                 plan["nbuf"] -= 1
                 if draw(st.integers(0, 5)) == 0:
@@ -71,6 +80,12 @@ def _gen(ci, dom, plan):
                 lo = 1 if plan["mode"] == "both" and len(w.stack) > 1 else 0
                 if len(w.stack) == 1:
                     return {"t": "exit"}
+                ef = plan.get("exit_first")
+                if ef is not None:
+                    plan["exit_first"] = None
+                    for i, (kind, key, _c) in enumerate(w.stack):
+                        if kind == "obj" and key == roots[ef % len(roots)]:
+                            return {"t": "exit_at", "i": i}
                 return {"t": "exit_at", "i": draw(st.integers(lo, len(w.stack) - 1))}
             plan["phase"] = "post"
         if plan["post"] > 0:
@@ -162,6 +177,16 @@ def run_shard(spec, seed, tier, active):
                 "pre": draw(st.integers(0, 2)), "nbuf": draw(st.integers(1, 8)),
                 "post": draw(st.integers(0, 2)), "phase": "pre",
                 "readers": set(draw(st.lists(st.integers(0, k - 1), max_size=k - 1, unique=True)))}
+        if draw(st.booleans()):
+            # steer towards the shape that matters: a pure reader flushed before a later writer
+            r_, w_ = draw(st.permutations(range(k)))[:2]
+            plan["readers"] = {r_} if draw(st.booleans()) else plan["readers"] | {r_}
+            plan["readers"].discard(w_)
+            if plan["mode"] == "cls":
+                plan["script"] = [("r", w_), ("r", r_), ("w", w_)]
+            else:
+                plan["script"] = [("r", r_), ("w", w_)]
+                plan["exit_first"] = r_
         w = wm.run_generated(ID, ci, [init], _gen(ci, dom, plan), draw, 40, engine="bufworld",
                              check_frozen=False, excl=excl)
         acc.excluded += w.excluded
